@@ -330,7 +330,7 @@ fn c07_shaped(_k: u64, rng: &Rng) -> File {
     // pragma spellings
     let id = b.ids.next();
     let ver = format!("{}.{}.{}", rng.below(2), rng.below(10), rng.below(30));
-    let spell = match rng.below(8) {
+    let spell = match rng.below(9) {
         0 => ver.clone(),
         1 => format!("^{}", ver),
         2 => format!("^ {}", ver),
@@ -338,6 +338,8 @@ fn c07_shaped(_k: u64, rng: &Rng) -> File {
         4 => format!(">={}", ver),
         5 => format!("~{}", ver),
         6 => format!(">={} <0.9.0", ver),
+        7 if rng.chance(1, 2) => format!("0.7.6 || ^{}", ver),
+        7 => format!(">={} ^0.8.0", ver),
         _ => format!("^{}", ver),
     };
     items.push(Item::Pragma(id, "solidity".into(), spell));
